@@ -1,6 +1,6 @@
 (* Lemmas about the wire integers of Model/Varint.v: round trips and lengths. *)
 From Coq Require Import ZArith List Bool Lia ZifyBool.
-From Tally Require Import Base.Obs Model.Varint.
+From Tally Require Import Base.ObsCore Model.Varint.
 Import ListNotations.
 Open Scope Z_scope.
 Ltac Zify.zify_post_hook ::= Z.div_mod_to_equations.
